@@ -37,22 +37,59 @@ def _resolve(en, name: str) -> str:
 
 
 def dt_value(repo, attr: str) -> Any:
-    """Value of DT.<attr>: a member name, or a frozenset of member names for a subset constant."""
+    """Value of DT.<attr>: a member name, or a frozenset of member names for a subset constant (a display of members, a
+    union / intersection / difference of other subset constants)."""
     en = repo.cls("enums.py", "DIMENSION_TYPE")
+
+    def val(e, depth=0):
+        if depth > 6:
+            raise DTop(f"DT.{attr}: too deep")
+        if isinstance(e, ast.Name):
+            n = _resolve(en, e.id)
+            c = en.consts.get(n)
+            if c is None:
+                raise DTop(f"DT.{attr} element {e.id}")
+            if isinstance(c, ast.Call) and u(c.func) == "_DimensionType":
+                return n
+            return val(c, depth + 1)
+        if isinstance(e, ast.Attribute) and isinstance(e.value, ast.Name) and e.value.id in ("DIMENSION_TYPE", "DT", "cls"):
+            return val(ast.Name(id=e.attr, ctx=ast.Load()), depth + 1)
+        if isinstance(e, ast.Call) and u(e.func) == "_DimensionType":
+            raise DTop("anonymous member")
+        if isinstance(e, ast.Call) and u(e.func) in ("frozenset", "set", "tuple") and len(e.args) == 1:
+            inner = val(e.args[0], depth + 1)
+            return frozenset(inner if isinstance(inner, (frozenset, tuple, list)) else [inner])
+        if isinstance(e, ast.Call) and u(e.func) in ("frozenset", "set") and not e.args:
+            return frozenset()
+        if isinstance(e, (ast.Tuple, ast.List, ast.Set)):
+            out = []
+            for x in e.elts:
+                v = val(x, depth + 1)
+                out += list(v) if isinstance(v, frozenset) and isinstance(x, ast.Starred) else [v]
+            if any(isinstance(v, frozenset) for v in out):
+                raise DTop(f"DT.{attr}: set inside a display")
+            return frozenset(out)
+        if isinstance(e, ast.BinOp) and isinstance(e.op, (ast.BitOr, ast.BitAnd, ast.Sub)):
+            a, b = val(e.left, depth + 1), val(e.right, depth + 1)
+            if not (isinstance(a, frozenset) and isinstance(b, frozenset)):
+                raise DTop(f"DT.{attr}: set operation on a member")
+            return a | b if isinstance(e.op, ast.BitOr) else (a & b if isinstance(e.op, ast.BitAnd) else a - b)
+        if isinstance(e, ast.Call) and isinstance(e.func, ast.Attribute) and e.func.attr in ("union", "intersection", "difference"):
+            a = val(e.func.value, depth + 1)
+            for x in e.args:
+                b = val(x, depth + 1)
+                b = b if isinstance(b, frozenset) else frozenset([b])
+                a = a | b if e.func.attr == "union" else (a & b if e.func.attr == "intersection" else a - b)
+            return a
+        raise DTop(f"DT.{attr} = {u(e)[:40]}")
+
     n = _resolve(en, attr)
     e = en.consts.get(n)
     if e is None:
         raise DTop(f"DT.{attr}")
     if isinstance(e, ast.Call) and u(e.func) == "_DimensionType":
         return n
-    if isinstance(e, ast.Call) and u(e.func) in ("frozenset", "set", "tuple") and e.args and isinstance(e.args[0], (ast.Tuple, ast.List, ast.Set)):
-        vals = []
-        for x in e.args[0].elts:
-            if not isinstance(x, ast.Name):
-                raise DTop(f"DT.{attr} element {u(x)}")
-            vals.append(_resolve(en, x.id))
-        return frozenset(vals)
-    raise DTop(f"DT.{attr} = {u(e)[:40]}")
+    return val(e)
 
 
 def eval_over_types(repo, mod, expr: ast.expr, type_atoms: Dict[str, str], extra: Optional[Callable[[ast.expr], Any]] = None):
